@@ -118,6 +118,11 @@ STMT = {
                 ["match c:", "    Color.Red => println(1)", "    Color.Green => println(2)", "    Color.Blue => println(3)"]),
     "R10option": ([], ["«match o:", "    Some(v) => println(v)»"], ["match o:", "    Some(v) => println(v)", "    None => println(0)"]),
     "R10result": ([], ["«match r:", "    Ok(v) => println(v)»"], ["match r:", "    Ok(v) => println(v)", "    Err(e) => println(e)"]),
+    "R10guard-enum": ([], ["«match c:", "    case Color.Red:", "        println(1)", "    case Color.Green:", "        println(2)", "    case other if n > 5:", "        println(3)»"],
+                      ["match c:", "    case Color.Red:", "        println(1)", "    case Color.Green:", "        println(2)", "    case other if n > 5:", "        println(3)",
+                       "    case _:", "        println(4)"]),
+    "R10guard-option": ([], ["«match o:", "    case Some(v) if v > 3:", "        println(v)", "    case None:", "        println(0)»"],
+                        ["match o:", "    case Some(v) if v > 3:", "        println(v)", "    case Some(v):", "        println(1)", "    case None:", "        println(0)"]),
     "R11missing": ([], ["let q = «P(y=2)»", "println(q.y)"], ["let q = P(x=1)", "println(q.y)"]),
     "R11dup": ([], ["let q = «P(x=1, x=2)»", "println(q.y)"], ["let q = P(x=1)", "println(q.y)"]),
     "R11unknown": ([], ["let q = «P(x=1, zz=3)»", "println(q.y)"], ["let q = P(x=1)", "println(q.y)"]),
